@@ -1668,7 +1668,19 @@ impl Server {
                         debug!("Sending response {:?}", resp);
                         if let Err(e) = self.channel.write_message(&resp) {
                             error!("Could not write message {} on the channel: {}", resp, e);
-                            queue.push_front(resp);
+                            if self.channel.back_buf.available_data() > 0 {
+                                // no room behind the frames still waiting to be
+                                // flushed: retry once they are gone
+                                queue.push_front(resp);
+                            } else if resp.status != ResponseStatus::Failure as i32 {
+                                // even an empty buffer cannot hold this response, so
+                                // retrying can never succeed (and would spin in this
+                                // loop for ever): answer with an error instead
+                                queue.push_front(WorkerResponse::error(
+                                    resp.id,
+                                    format!("the response does not fit the command channel: {e}"),
+                                ));
+                            }
                         }
                     }
 
